@@ -241,8 +241,9 @@ def run(rep):
         "concurrent simulations and by the race detector (thorough), not proved",
         "steps are atomic in the model; with disjoint footprints every fine-grained interleaving is equivalent to a "
         "serial order, with shared Globals the model already differs at step granularity",
-        "simulations with SimDelays (simbox.DelayDistribution.GetValue draws from the process-wide math/rand and "
-        "ranges over a map) are random by design and outside the determinism claim: all runs use sDelay = nil",
+        "multi-valued SimDelays (simbox.DelayDistribution.GetValue draws from the process-wide math/rand and ranges "
+        "over a map) are random by design and outside the determinism claim; a third of the cases run with ONE "
+        "shared *simbox.SimDelays of single-valued (deterministic) distributions, the others with nil",
         "bmnumbers.EventuallyCreateType / procbuilder.EventuallyCreateInstruction append to package-level tables "
         "without synchronisation; the harness serialises machine construction and uses only pre-registered types",
         "verif hook applied to the tree under test: %s (without it only GOMAXPROCS and concurrency vary)" % hook,
@@ -291,6 +292,7 @@ def run(rep):
     for ss in ([rep.seed * 1000 + 99, 0] if thorough else [rep.seed * 1000 + 99]):
         e = henv(16, ss)
         e["CGO_ENABLED"] = "1"
+        e["VERIF_C09_ROUNDS"] = "8"
         rc, so, se = vlib.run([rbin, "batch", racefile], timeout=2400, env=e)
         race_blocks += races(se)
         rruns = parse_runs(so)
@@ -321,7 +323,8 @@ def run(rep):
         "hook_present": hook,
         "opcode_state": [l.strip() for l in gen.splitlines() if l.strip().startswith("(\"")],
         "unmodelled": ["bonds / data movement in the Lean ISA (ring cases are compared Go-vs-Go only)",
-                       "dynamic opcode families in the Lean ISA (Go-vs-Go only)", "SimDelays (random by design)",
+                       "dynamic opcode families in the Lean ISA (Go-vs-Go only)",
+                       "delay tables in the Lean ISA (delays=1 cases: Go-vs-Go + race detector); multi-valued (random) SimDelays",
                        "SinglePipelineSimulate's report assembly (covered by C15/C17 harnesses)"],
     })
 
@@ -372,6 +375,18 @@ def run(rep):
                        "broken_obligations": pr["broken"],
                        "replay": "python3 tools/check.py C09 --replay <this file>"})
     elif race_real:
+        # shrink: does the smallest single case of the batch already race (its own concurrent copies)?
+        for cand in sorted(race_specs, key=len)[:3]:
+            f1 = os.path.join(d, "race-shrink.txt")
+            open(f1, "w").write("C %s\n" % cand)
+            e = henv(16, 1)
+            e["CGO_ENABLED"] = "1"
+            e["VERIF_C09_ROUNDS"] = "8"
+            rc, so, se = vlib.run([rbin, "batch", f1], timeout=600, env=e)
+            bl = [b for b in races(se)]
+            if bl:
+                race_real, race_specs = bl, [cand]
+                break
         rep.violation({"property": PROP, "kind": "data-race", "report": race_real[0][:6000],
                        "reports_total": len(race_real), "batch_cases": race_specs,
                        "execution": "h-c09-race batch <batch_cases>, GOMAXPROCS=16: the simulations of one case run "
@@ -400,6 +415,7 @@ def replay(rep, path):
         for attempt in range(4):   # a race needs the right overlap: a few attempts
             e = henv(16, attempt)
             e["CGO_ENABLED"] = "1"
+            e["VERIF_C09_ROUNDS"] = "8"
             rc, so, se = vlib.run([rbin, "batch", f], timeout=1800, env=e)
             n += len(parse_runs(so))
             blocks = races(se)
